@@ -73,3 +73,81 @@ Proof.
        cbn [Z.to_nat nth_error]; cbv beta iota; relz; unfold cfg_bits, in_range; cbn [ckind gbits]; nums;
        match goal with |- context [bs_new ?b ?n ?d] => destruct (bs_new b n d) end; relz; reflexivity.
 Qed.
+
+(* ---------- NewStatesPaletteContainerWithData ---------- *)
+Lemma exec_switch setf f e tag cases :
+  exec setf (S f) e (SSwitch [tag] cases) =
+  match eval setf (S f) e tag with
+  | EV e1 (VZ t) => pick_case (scoped_exec (exec setf f) e1) t cases None
+  | EV _ _ => SStuck | EP e1 w => SP e1 w | EStuck => SStuck
+  end.
+Proof. reflexivity. Qed.
+
+Lemma zlist_eqb_refl l : zlist_eqb l l = true.
+Proof. induction l as [|x t IH]; cbn; [reflexivity|]. rewrite Z.eqb_refl. exact IH. Qed.
+
+(* the environment inside the hash branch, after `ids := make(map[BlocksState]int)` *)
+Definition hash_env (acc : list Z) (xn xp xpat xdata xlen : val) (gs gb : Z) : env :=
+  ("ids", VIds acc) :: ("n", xn) :: ("p", xp) :: ("pat", xpat) :: ("data", xdata) :: ("length", xlen) :: ("", VNil)
+  :: cfg_env gs gb.
+
+Definition ids_body : list gstmt := [SAssign [EIndex (EId "ids") (EId "v")] "=" [EId "i"]].
+
+(* for i, v := range pat { ids[v] = i } builds the index of pat *)
+Lemma ids_loop xn xp xpat xdata xlen gs gb : forall l acc idx, idx = zlen acc ->
+  range_loop (fun e' => scoped_exec (exec no_set 10) e' ids_body) "i" "v" (hash_env acc xn xp xpat xdata xlen gs gb) idx l
+  = SN (hash_env (acc ++ l)%list xn xp xpat xdata xlen gs gb).
+Proof.
+  induction l as [|y t IH]; intros acc idx Hidx; cbn [range_loop].
+  - rewrite app_nil_r. reflexivity.
+  - unfold hash_env, cfg_env. lzd_scoped. subst idx. rewrite Z.eqb_refl. cbv beta iota. lzd_pop.
+    change (hash_env (acc ++ [y])%list xn xp xpat xdata xlen gs gb) with (hash_env (acc ++ [y])%list xn xp xpat xdata xlen gs gb).
+    fold (cfg_env gs gb). fold (hash_env (acc ++ [y])%list xn xp xpat xdata xlen gs gb).
+    rewrite (IH (acc ++ [y])%list (zlen acc + 1)).
+    + rewrite <- app_assoc. reflexivity.
+    + unfold zlen. rewrite app_length. cbn [List.length]. lia.
+Qed.
+
+Lemma tie_states_with_data gs gb n data pat capp :
+  new_result (run_g (cfg_env gs gb) no_set exp_NewStatesPaletteContainerWithData VNil [VZ n; VData data; VSlice pat capp])
+  = Some (pc_with_data (mkCfg KStates gs) n data pat).
+Proof.
+  unfold run_g, exec_body, run_fuel, cfg_env.
+  cbn [g_recv g_params g_body exp_NewStatesPaletteContainerWithData bind_all map fst].
+  unfold pc_with_data, infer_bits. cbn [ckind gbits].
+  stepd. stepd.
+  destruct (calc_bits n (zlen data)) as [n0|]; cbv beta iota; [|reflexivity].
+  rewrite seq_cons, exec_switch. evd. cbn [pick_case int_lits existsb].
+  destruct (Z.eqb_spec n0 0) as [->|H0]; cbn [orb]; cbv beta iota.
+  { (* single value *)
+    destruct pat as [|v0 pt].
+    - lzd_scoped. relz. reflexivity.
+    - lzd_scoped.
+      assert (Hz : (0 <? zlen (v0 :: pt)) = true) by (unfold zlen; cbn [List.length]; lia). rewrite ?Hz.
+      cbn [Z.to_nat nth_error]. cbv beta iota. relz. unfold cfg_bits, in_range; cbn [ckind gbits]; nums.
+      match goal with |- context [bs_new ?b ?n ?d] => destruct (bs_new b n d) end; relz; reflexivity. }
+  assert (LIN : forall k, k = 1 \/ k = 2 \/ k = 3 \/ k = 4 -> n0 = k -> True) by auto.
+  destruct (Z.eqb_spec n0 1) as [->|H1]; [|destruct (Z.eqb_spec n0 2) as [->|H2]; [|destruct (Z.eqb_spec n0 3) as [->|H3];
+    [|destruct (Z.eqb_spec n0 4) as [->|H4]]]]; cbn [orb]; cbv beta iota.
+  1-4: (nums; lzd_scoped; repeat lzd_pop; cbv beta iota; stepd; nums; unfold cfg_bits, in_range; cbn [ckind gbits]; nums;
+        match goal with |- context [bs_new ?b ?n ?d] => destruct (bs_new b n d) end; relz; reflexivity).
+  destruct (Z.eqb_spec n0 5) as [->|H5]; [|destruct (Z.eqb_spec n0 6) as [->|H6]; [|destruct (Z.eqb_spec n0 7) as [->|H7];
+    [|destruct (Z.eqb_spec n0 8) as [->|H8]]]]; cbn [orb]; cbv beta iota.
+  1-4: (nums; rewrite scoped_unfold; stepd; stepd; rewrite seq_cons, exec_range; evd;
+        match goal with |- context [range_loop _ _ _ (("ids", VIds []) :: ("n", ?xn) :: ("p", ?xp) :: ("pat", ?xpat) :: _) 0 ?l] =>
+          pose proof (ids_loop xn xp xpat (VData data) (VZ n) gs gb l [] 0 eq_refl) as HL end;
+        unfold hash_env, cfg_env, ids_body in HL; rewrite HL; clear HL; cbn [app]; cbv beta iota;
+        stepd; rewrite zlist_eqb_refl; relz; unfold cfg_bits, in_range; cbn [ckind gbits]; nums;
+        match goal with |- context [bs_new ?b ?n ?d] => destruct (bs_new b n d) end; relz; reflexivity).
+  (* direct ids; more than 256 palette entries are resolved first *)
+  rewrite scoped_unfold. stepd. stepd.
+  change (Z.shiftl 1 8) with 256. cbn [wide_limit].
+  assert (R14 : in_range 1 4 n0 = false) by (unfold in_range; lia).
+  assert (R58 : in_range 5 8 n0 = false) by (unfold in_range; lia).
+  assert (E0 : (n0 =? 0) = false) by lia.
+  rewrite ?R14, ?R58.
+  destruct (256 <? zlen pat); cbv beta iota.
+  1: destruct (resolve_indirect n data pat gs); cbv beta iota.
+  all: relz; unfold cfg_bits; cbn [ckind gbits]; rewrite ?E0, ?R14, ?R58; try reflexivity.
+  all: match goal with |- context [bs_new ?b ?n ?d] => destruct (bs_new b n d) end; relz; reflexivity.
+Qed.
